@@ -11,6 +11,56 @@ warnings.filterwarnings("ignore")
 sys.path.insert(0, os.environ.get("VERIF_REPO", "/repo"))
 
 
+ENV = {"lifo": False}
+
+
+class LazyFuture:
+    def __init__(self, pool, fn, args, kwargs):
+        self.pool, self.call = pool, (fn, args, kwargs)
+        self.value = self.exc = None
+        self.ran = False
+
+    def run(self):
+        fn, a, k = self.call
+        try:
+            self.value = fn(*a, **k)
+        except BaseException as e:      # noqa
+            self.exc = e
+        self.ran = True
+
+    def done(self):
+        self.pool.flush()
+        return True
+
+    def result(self):
+        self.pool.flush()
+        if self.exc is not None:
+            raise self.exc
+        return self.value
+
+    def cancel(self):
+        return False
+
+
+class LazyExecutor:
+    """in-process pool without real concurrency: the submitted tasks run when the first result is asked for, in
+    submission order or (environment dependent) in reverse - a legal schedule of a pool with several workers"""
+    _max_workers = 3
+
+    def __init__(self, lifo):
+        self.lifo, self.pending = lifo, []
+
+    def submit(self, fn, *args, **kwargs):
+        f = LazyFuture(self, fn, args, kwargs)
+        self.pending.append(f)
+        return f
+
+    def flush(self):
+        pend, self.pending = self.pending, []
+        for f in (reversed(pend) if self.lifo else pend):
+            f.run()
+
+
 def digest(x):
     return hashlib.sha1(repr(x).encode()).hexdigest()[:16]
 
@@ -127,6 +177,7 @@ def run_call(ct, call):
         for ix in sorted(size)[:3]:
             tree.remove_ind_(ix)
     repeat = kw.pop("repeat", False)
+    par = LazyExecutor(ENV["lifo"]) if kw.pop("pool", None) == "lazy" else False
 
     def do():
         kw_ = dict(kw)
@@ -146,11 +197,11 @@ def run_call(ct, call):
             return canon_tree(tree.subtree_reconfigure(subtree_size=4, maxiter=6, seed=seed, **kw_))
         if api == "subtree_reconfigure_forest":
             return canon_tree(tree.subtree_reconfigure_forest(num_trees=2, num_restarts=2, subtree_maxiter=4, subtree_size=4,
-                                                              parallel=False, seed=seed))
+                                                              parallel=par, seed=seed))
         if api == "simulated_anneal":
             return canon_tree(tree.simulated_anneal(tsteps=3, numiter=6, tstart=5, seed=seed, **kw_))
         if api == "parallel_temper":
-            return canon_tree(tree.parallel_temper(tsteps=2, numiter=4, num_trees=2, parallel=False, seed=seed, **kw_))
+            return canon_tree(tree.parallel_temper(tsteps=2, numiter=4, num_trees=3, parallel=par, seed=seed, **kw_))
         if api == "get_subtree":
             sub = tree.get_subtree(tree.root, 4, search="random", seed=seed)
             return tuple(tuple(sorted(map(tuple, map(sorted, part)))) for part in sub)
@@ -165,6 +216,7 @@ def run_call(ct, call):
 
 def main():
     env = json.loads(sys.argv[1])
+    ENV["lifo"] = bool(env.get("order", 0) % 2 == 0)
     calls = json.load(sys.stdin)
     import numpy as np
     import cotengra as ct
